@@ -58,7 +58,8 @@ def main():
   if not ok:
     print("NOT CONFIRMED - not kept")
     sys.exit(3)
-  dst = os.path.join(VERIF, "seeded", "%s_%s" % (prop, k))
+  name = sys.argv[sys.argv.index("--as") + 1] if "--as" in sys.argv else k
+  dst = os.path.join(VERIF, "seeded", "%s_%s" % (prop, name))
   os.makedirs(dst, exist_ok=True)
   shutil.copy(patch, os.path.join(dst, "patch.diff"))
   shutil.copy(demo, os.path.join(dst, "demonstration.py"))
@@ -93,7 +94,7 @@ def main():
   meta.update({"property": prop, "confirmed_by_main_session": out["confirmed"], "check_tier": tier, "check_results": results,
                "caught": results[prop]["exit"] == 1 and results[prop]["n_violation_lines"] > 0})
   json.dump(meta, open(os.path.join(dst, "meta.json"), "w"), indent=1)
-  print("RESULT %s_%s caught=%s exit=%s %s" % (prop, k, meta["caught"], results[prop]["exit"],
+  print("RESULT %s_%s caught=%s exit=%s %s" % (prop, name, meta["caught"], results[prop]["exit"],
                                               (results[prop]["violations"] or results[prop]["undecided"] or [""])[0][:260]))
 
 
